@@ -8,7 +8,7 @@
    streams without entries, any label bytes). *)
 From Coq Require Import List ZArith NArith Bool Ascii String Lia.
 From Coq Require Permutation.
-From Qryn Require Import gen.DecodeConsts model.Decode proofs.DecodeProofs model.LokiLabels proofs.LokiLabelsProofs model.LokiTime proofs.LokiTimeProofs.
+From Qryn Require Import gen.DecodeConsts model.Decode proofs.DecodeProofs model.LokiLabels proofs.LokiLabelsProofs model.LokiTime proofs.LokiTimeProofs model.LokiJson proofs.LokiJsonProofs.
 Import ListNotations.
 Open Scope Z_scope.
 
@@ -222,6 +222,38 @@ Theorem parse_time_dispatch :
 Proof. exact parse_time_dispatch_l. Qed.
 Print Assumptions parse_time_dispatch.
 
+(* ---------------------------------------------------------------- the Loki JSON push as a document (model/LokiJson.v)
+   push_members is the walk of pushRequestDec over the document; the unicode classes and time.Parse are quantified. *)
+
+(* a push document {"streams":[{"stream":{...},"values":[[ts, line, number?, anything...], ...]}, ...]} -- any labels, every
+   timestamp a decimal integer of either sign within int64, any line, an optional number third and anything behind it -- is
+   walked into exactly the streams it was written from, and is answered with one faithful row per written element *)
+Theorem decode_faithful_loki_json_document :
+  forall (uletter udigit : string -> bool) (rfc : string -> option Z) fp enc_len CS cache_add cache0 threshold flush_limit ctx_ttl
+         (rest : list jv) (ws : list wstream),
+  Forall (fun s => Forall wvalue_ok (snd s)) ws ->
+  let streams := map wstream_stream ws in
+  push_members uletter udigit rfc (push_doc rest ws) = Some (map members_of streams) /\
+  exists cs, decode fp enc_len CS cache_add cache0 threshold flush_limit ctx_ttl (BLoki (map members_of streams)) = Done cs /\
+             Forall chunk_rect cs /\ rows_of cs = rows_spec fp ctx_ttl (entries_loki_streams streams).
+Proof.
+  intros until ws. intros H streams. split.
+  - unfold streams. rewrite map_map. now apply push_members_written_l.
+  - assert (W : Forall2 wf_members (map members_of streams) streams).
+    { clear. induction streams; constructor; [split; reflexivity | assumption]. }
+    rewrite <- (entries_loki_json_wf _ _ W).
+    exact (decode_faithful_all fp enc_len CS cache_add cache0 threshold flush_limit ctx_ttl (BLoki (map members_of streams))).
+Qed.
+Print Assumptions decode_faithful_loki_json_document.
+
+(* an element of the entries layout {"ts" | "timestamp": text, "line"?: s, "value"?: number} whose timestamp text parseTime
+   reads as ts is walked into the entry (ts, line, value): the sample type follows from which of line / value are present *)
+Theorem entries_element_read :
+  forall (rfc : string -> option Z) (w : wentry) ts, wentry_ts rfc w = Some ts ->
+  entry_entry rfc (wentry_doc w) = Some (wentry_entry ts w).
+Proof. exact entry_entry_written. Qed.
+Print Assumptions entries_element_read.
+
 (* the hypotheses above are met by non-trivial values; the model computes *)
 Example onentries_hypothesis_met :
   Forall call_wf [K [("app", "a")]%string [1; 2] [""; "x"]%string [0; 0]%N [1; 1]%N; K [] [] [] [] []].
@@ -271,3 +303,19 @@ Example integer_timestamp_hypotheses_met :
   parse_time (fun _ => None) "9223372036854775808"%string = None /\
   parse_time (fun _ => Some 5) "2023-11-14T22:13:20Z"%string = Some 5.
 Proof. vm_compute. repeat split. Qed.
+
+Example json_document_hypotheses_met :
+  let ws : list wstream := [([("app", "a"); ("9x", "b")]%string, [(true, [1; 7]%N, "before 1970"%string, None); (false, [0; 5]%N, "x"%string, Some 7%N)]);
+                            ([("app", "b")]%string, [])] in
+  Forall (fun s => Forall wvalue_ok (snd s)) ws /\
+  push_members (fun _ => false) (fun _ => false) (fun _ => None) (push_doc [JObj [("trace_id"%string, JStr "abc")]] ws)
+  = Some (map (fun s => members_of (wstream_stream s)) ws) /\
+  map (fun s => map le_ts (ls_entries (wstream_stream s))) ws = [[-17; 5]; []].
+Proof.
+  split; [|split; vm_compute; reflexivity].
+  repeat constructor; cbn; try discriminate; lia.
+Qed.
+Example entries_element_hypotheses_met :
+  wentry_ts (fun s => if String.eqb s "2023-11-14T22:13:20Z" then Some 1700000000000000000 else None) (true, "2023-11-14T22:13:20Z"%string, Some "l"%string, Some 3%N)
+  = Some 1700000000000000000 /\ wentry_ts (fun _ => None) (false, "-5"%string, None, None) = Some (-5).
+Proof. vm_compute. split; reflexivity. Qed.
